@@ -108,7 +108,7 @@ def shrink_impl_only(pid, lines, pred_key, budget=8):
         cands = [cur[:i] + cur[i + chunk:] for i in range(0, len(cur), chunk) if cur[:i] + cur[i + chunk:]]
         if not cands:
             break
-        res, _ = syscorr.run_both([("s%d" % i, c) for i, c in enumerate(cands)], "shrinkv_" + pid)
+        res, _ = syscorr.run_impl_only([("s%d" % i, c) for i, c in enumerate(cands)], "shrinkv_" + pid)
         hit = [ls for (cid, ls, iobs, mobs) in res if any(failure_key(f) == pred_key for f in mon(sysmon.Trace(cid, ls, iobs, XMAP)))]
         if hit:
             cur = min(hit, key=len)
@@ -250,7 +250,7 @@ def run(res, tier, seed, pid):
     # the crash / stall monitor is the only judge there
     if pid == "C12":
         v4m = sysgen.gen_v4mapped(rng, 200 if tier == "quick" else 2000)
-        vres, _ = syscorr.run_both(v4m, pid + "_v4m")
+        vres, _ = syscorr.run_impl_only(v4m, pid + "_v4m")
         res.coverage["v4mapped_histories"] = len(v4m)
         vf = []
         for cid, ls, iobs, mobs in vres:
